@@ -17,7 +17,7 @@ fn main() {
     install_quiet_panic_hook();
     watchdog("C27", args.pick(1500, 14400));
     let mut rep = Report::new("C27", "exploration", &args);
-    rep.rule = "multi-context programs as in C26 (2-3 contexts, cross-context derived streams, capacities 4..1000 so that forwards are not lost), 40-200 input events, 1-4 coordinated checkpoints triggered at random input positions through ContextOrchestrator::trigger_checkpoint / try_complete_checkpoint, hook H7 perturbation; every completed checkpoint is checked on the recorded trace. Non-trivial: completed checkpoint with >=1 cross-context event in flight at some barrier (forwarded before the producer's barrier, received after it, or vice versa around the consumer's barrier); distinct by hash of the trace order. Interleavings are sampled, not enumerated; the evidence counts the distinct ones seen.".into();
+    rep.rule = "multi-context programs as in C26 (2-3 contexts, cross-context derived streams, capacities 4..1000 so that forwards are not lost; one run in four uses capacities 1-3, 3-8 triggers and drains acknowledgements only every 1-12 inputs), 40-200 input events, 1-4 coordinated checkpoints triggered at random input positions through ContextOrchestrator::trigger_checkpoint / try_complete_checkpoint, hook H7 perturbation; every completed checkpoint is checked on the recorded trace. Non-trivial: completed checkpoint with >=1 cross-context event in flight at some barrier (forwarded before the producer's barrier, received after it, or vice versa around the consumer's barrier); distinct by hash of the trace order. Interleavings are sampled, not enumerated; the evidence counts the distinct ones seen.".into();
     rep.assume("a checkpoint is 'completed' when try_complete_checkpoint reported completion; snapshots are taken where hook H7 logs the barrier (immediately before create_checkpoint)");
     rep.assume("the model-checking half of the property's quantifier is out of this technique family; the end-to-end restore+replay confirmation is not built: the verdict rests on the cut condition over the trace");
     #[cfg(not(varpulis_verif))]
@@ -39,14 +39,18 @@ fn main() {
         }
         let n = 40 + rng.below(args.pick(100, 160));
         let events = gen_events(&mut rng, n);
-        let nck = 1 + rng.below(4);
+        // one run in four: tiny queues (a barrier may find a queue full), more triggers, acknowledgements drained
+        // only every few inputs as a periodic checkpoint_tick would
+        let tight = rng.chance(1, 4);
+        let nck = if tight { 3 + rng.below(6) } else { 1 + rng.below(4) };
         let cfg = RunCfg {
-            capacity: *rng.pick(&[4usize, 16, 64, 1000]),
+            capacity: if tight { *rng.pick(&[1usize, 2, 3]) } else { *rng.pick(&[4usize, 16, 64, 1000]) },
             perturb_permille: *rng.pick(&[0u64, 100, 300, 600]),
             perturb_max_us: *rng.pick(&[1u64, 50, 300]),
             seed: rng.next_u64(),
             checkpoints_at: (0..nck).map(|_| rng.below(n)).collect(),
             stable_ms: 120,
+            drain_every: if tight { 1 + rng.below(12) } else { 1 },
         };
         rep.eval();
         let out = run_contexts(&p, &events, &cfg);
